@@ -142,7 +142,6 @@ macro_rules! volume3d {
 }
 
 volume3d!(c18_volume_3d_g1, 1);
-volume3d!(c18_volume_3d_g2, 2);
 
 harness! {
     // bound: simplex_volume D=2 with any slice length 0..=5: Err unless exactly 3 points
@@ -195,7 +194,6 @@ macro_rules! volume4d_degenerate {
 }
 
 volume4d_degenerate!(c18_volume_4d_degenerate_g2_fixed3, 2, 3);
-volume4d_degenerate!(c18_volume_4d_degenerate_g1_fixed1, 1, 1);
 
 // ---------------------------------------------------------------------------
 // Circumcentre (D = 2): LU solve on relative coordinates; no sqrt/hypot involved
@@ -283,36 +281,35 @@ harness! {
     }
 }
 
-harness! {
-    // bound: circumcenter D=2 translation invariance: triangle in [-2,2]^2 translated by t = (m0, m1) * 2^k, m in [-3,3], k in 0..=44: C(p + t) = C(p) + t within 2^-48 |t| + 2^-30
-    #[kani::unwind(5)]
-    fn c18_circumcenter_translation_2d() {
-        let k: u8 = kani::any();
-        kani::assume(k <= 44);
-        let unit = f64::from_bits((1023_u64 + u64::from(k)) << 52);
-        let t = [f64::from(any_grid(3)) * unit, f64::from(any_grid(3)) * unit];
-        let mut p = [Point::new([0.0, 0.0]); 3];
-        let mut q = [Point::new([0.0, 0.0]); 3];
-        let mut ip = [[0_i32; 2]; 3];
-        let mut i = 0;
-        while i < 3 {
-            let x = any_grid(2);
-            let y = any_grid(2);
-            ip[i] = [x, y];
-            p[i] = Point::new([f64::from(x), f64::from(y)]);
-            q[i] = Point::new([f64::from(x) + t[0], f64::from(y) + t[1]]); // exact: integers below 2^48
-            i += 1;
+macro_rules! circumcenter_translation {
+    ($name:ident, $k:literal) => {
+        harness! {
+            // bound: circumcenter D=2 translation invariance: triangle in [-2,2]^2 translated by t = (m0, m1) * 2^k (k fixed), m in [-3,3]: C(p + t) = C(p) + t within 2^-48 |t| + 2^-30
+            #[kani::unwind(5)]
+            fn $name() {
+                let unit = f64::from_bits((1023_u64 + $k) << 52);
+                let t = [f64::from(any_grid(3)) * unit, f64::from(any_grid(3)) * unit];
+                let (ip, p) = any_triangle_g(2);
+                let mut q = [Point::new([0.0, 0.0]); 3];
+                let mut i = 0;
+                while i < 3 {
+                    q[i] = Point::new([f64::from(ip[i][0]) + t[0], f64::from(ip[i][1]) + t[1]]); // exact: integers below 2^48
+                    i += 1;
+                }
+                let (d, _, _) = exact_circumcentre_2d(&ip);
+                kani::assume(d != 0);
+                let c0 = circumcenter(&p);
+                let c1 = circumcenter(&q);
+                let (Ok(c0), Ok(c1)) = (&c0, &c1) else { panic!("non-degenerate triangle without circumcentre") };
+                let tol0 = t[0].abs() * f64::from_bits((1023_u64 - 48) << 52) + f64::from_bits((1023_u64 - 30) << 52);
+                let tol1 = t[1].abs() * f64::from_bits((1023_u64 - 48) << 52) + f64::from_bits((1023_u64 - 30) << 52);
+                assert!(((c1.coords()[0] - t[0]) - c0.coords()[0]).abs() <= tol0 && ((c1.coords()[1] - t[1]) - c0.coords()[1]).abs() <= tol1,
+                    "circumcentre is translation invariant");
+                kani::cover!(t[0] != 0.0 && t[1] != 0.0, "oblique translation reached");
+            }
         }
-        let det = det3([[ip[0][0], ip[0][1], 1], [ip[1][0], ip[1][1], 1], [ip[2][0], ip[2][1], 1]]);
-        kani::assume(det != 0);
-        let c0 = circumcenter(&p);
-        let c1 = circumcenter(&q);
-        let (Ok(c0), Ok(c1)) = (&c0, &c1) else { panic!("non-degenerate triangle without circumcentre") };
-        let tol0 = t[0].abs() * f64::from_bits((1023_u64 - 48) << 52) + f64::from_bits((1023_u64 - 30) << 52);
-        let tol1 = t[1].abs() * f64::from_bits((1023_u64 - 48) << 52) + f64::from_bits((1023_u64 - 30) << 52);
-        assert!(((c1.coords()[0] - t[0]) - c0.coords()[0]).abs() <= tol0 && ((c1.coords()[1] - t[1]) - c0.coords()[1]).abs() <= tol1,
-            "circumcentre is translation invariant");
-        kani::cover!(k == 44 && t[0] != 0.0, "far translation reached");
-        kani::cover!(k == 0, "unit translation reached");
-    }
+    };
 }
+
+circumcenter_translation!(c18_circumcenter_translation_2d_k30, 30);
+circumcenter_translation!(c18_circumcenter_translation_2d_k44, 44);
